@@ -81,7 +81,8 @@ def k2(n: size, x: f32[n] @ DRAM, y: f64[n] @ DRAM, b: bool):
     u: f32[4] @ DRAM_STACK
     for i in seq(0, n):
         x[i] = relu(x[i]) + sin(x[i]) + select(x[i], 0.0, x[i], 1.0)
-        y[i] = sqrt(y[i]) + sin(y[i])
+        y[i] = sqrt(y[i]) + sin(y[i]) + relu(y[i]) + select(y[i], 0.0, y[i], 1.0) + sigmoid(y[i])
+        x[i] += sigmoid(x[i]) + sqrt(x[i])
     for j in seq(0, 4):
         t[j] = 0.0
         u[j] = t[j]
@@ -227,6 +228,25 @@ def blur(H: size, W: size, inp: f32[H + 2, W + 2], out: f32[H, W]):
     p = specialize(p, p.find_loop("yo").body(), ["yo == 0", "yo == 1"])
     p = simplify(p)
     return outputs_of([p])
+
+
+@session
+def s_divmod_helpers():
+    # every static helper of the back end at once (floor division and floor modulo on possibly negative
+    # operands), next to operands that are provably non-negative
+    ns = mkprocs(COMMON + """
+@proc
+def k9(n: size, k: index, x: f32[n + 8], y: f32[8]):
+    assert k >= -4
+    assert k <= 4
+    for i in seq(0, n):
+        x[(i + k + 8) / 2 + (i + k + 8) % 2] = y[(k + 4) % 8] + y[(k + 4) / 2]
+        if (k - 1) % 3 == 0:
+            x[i] += y[(k + 8) % 8]
+        if (k - 1) / 3 == 0:
+            x[i] += y[i % 8]
+""", tag="s9")
+    return outputs_of([ns["k9"]])
 
 
 def run_session(name):
